@@ -261,8 +261,19 @@ func c14Recover(d *vCtx) error {
 						"overwrite": c14B(m, "overwrite"), "directory": c14B(m, "directory"), "bufsize": c14I(m, "bufsize"), "timeout": c14I(m, "timeout")}
 				}
 				// give the relays a moment to see the end marker, then probe
-				time.Sleep(20 * time.Millisecond)
 				st := chain.statuses()
+				for deadline := time.Now().Add(3 * time.Second); time.Now().Before(deadline); st = chain.statuses() {
+					all0 := true
+					for _, x := range st {
+						if x != 0 {
+							all0 = false
+						}
+					}
+					if all0 {
+						break
+					}
+					time.Sleep(2 * time.Millisecond)
+				}
 				up, down := chain.probe(id)
 				tr.Emit(map[string]any{"e": "xfer", "run": id, "seq": sq, "how": how, "hops": hops, "trigger": res.TriggerSeen,
 					"actIn": flat(res.ActSent), "actOut": flat(res.ActAtServer), "cfgIn": flat(res.CfgSent), "cfgOut": flat(res.CfgAtClient),
